@@ -205,3 +205,243 @@ Proof.
       * rewrite (Hsn sl L N) in H. discriminate.
 Qed.
 
+
+(* ---------- the operations meet their footprints ---------- *)
+Ltac inj :=
+  repeat match goal with
+  | H : Some ?x = Some ?y |- _ => first [is_var x; injection H as -> | is_var y; injection H as <- | injection H as H]
+  end.
+Ltac fin := intros; cbn [o_sp o_path obj_of with_ptrs with_query with_verrs s_owner s_params] in *; stores; inj; eqs; inj; try congruence; try (exfalso; lia); try (left; congruence); try (right; lia);
+            try (eexists; split; [reflexivity|cbn [s_owner]; congruence]);
+            try match goal with W : forall l : nat, (next _ <= l)%nat -> rd _ l = None |- _ => apply W; lia end;
+            try (exfalso; match goal with N : ?x <> ?y |- _ => apply N; reflexivity end).
+Ltac absred :=
+  unfold abs;
+  repeat progress (cbn [hu hp hs o_path o_sp obj_of with_ptrs with_query with_verrs s_owner s_params]; stores; rewrite ?Nat.eqb_refl).
+Section OpsProofs.
+  Variable idna_raw : str -> str * bool.
+  Variable c : cfg.
+
+  Lemma commit_spec h a o u' : Sep h -> rd (hu h) a = Some o ->
+    exists o', inplace h (commit h a u') a o o' /\ abs (commit h a u') a = Some u' /\
+               (u_sp u' <> None -> o_sp o <> None -> o_sp o' = o_sp o).
+  Proof.
+    intros S Ha. pose proof (live_u h a o S Ha) as La. pose proof (sep_path h S a o Ha) as Pl.
+    pose proof (wf_s h S) as Ws.
+    unfold commit. rewrite Ha.
+    destruct (u_sp u') as [l|] eqn:Eu; destruct (o_sp o) as [sl|] eqn:Eo.
+    - destruct (sep_sp h S a o sl Ha Eo) as (s & Hs & Ow). rewrite Hs.
+      pose proof (live_s h sl s S Hs) as Ls.
+      eexists. split; [|split].
+      + unfold inplace. cbn [hu hp hs o_path o_sp obj_of]. stores. rewrite Nat.eqb_refl.
+        repeat split; try reflexivity; try assumption; fin.
+      + absred.
+        rewrite <- Eu. rewrite val_obj. reflexivity.
+      + reflexivity.
+    - eexists. split; [|split].
+      + unfold inplace. cbn [hu hp hs o_path o_sp obj_of]. stores. rewrite Nat.eqb_refl.
+        repeat split; try reflexivity; try assumption; fin.
+      + absred.
+        rewrite <- Eu. rewrite val_obj. reflexivity.
+      + intros _ N. elim N; reflexivity.
+    - pose proof (sep_sp h S a o sl Ha Eo) as (s & Hs & Ow). pose proof (live_s h sl s S Hs) as Ls.
+      eexists. split; [|split].
+      + unfold inplace. cbn [hu hp hs o_path o_sp obj_of]. stores. rewrite Nat.eqb_refl.
+        repeat split; try reflexivity; try assumption; fin.
+      + absred.
+        rewrite <- Eu. rewrite val_obj. reflexivity.
+      + intros N; elim N; reflexivity.
+    - eexists. split; [|split].
+      + unfold inplace. cbn [hu hp hs o_path o_sp obj_of]. stores. rewrite Nat.eqb_refl.
+        repeat split; try reflexivity; try assumption; fin.
+      + absred.
+        rewrite <- Eu. rewrite val_obj. reflexivity.
+      + intros N; elim N; reflexivity.
+  Qed.
+End OpsProofs.
+
+Lemma eqb_S_n n : Nat.eqb (Datatypes.S n) n = false.
+Proof. apply Nat.eqb_neq. lia. Qed.
+Lemma eqb_n_S n : Nat.eqb n (Datatypes.S n) = false.
+Proof. apply Nat.eqb_neq. lia. Qed.
+Ltac ext_goal :=
+  unfold extends; cbn [hu hp hs]; stores; rewrite ?Nat.eqb_refl, ?eqb_S_n, ?eqb_n_S;
+  repeat split; try reflexivity; try assumption; fin.
+
+Lemma new_url_spec h u : Sep h ->
+  exists o, extends h (fst (new_url h u)) (snd (new_url h u)) o /\
+            abs (fst (new_url h u)) (snd (new_url h u)) = Some u /\ snd (new_url h u) = next (hu h) /\
+            next (hu (fst (new_url h u))) = Datatypes.S (next (hu h)).
+Proof.
+  intros S. pose proof (wf_u h S) as Wu. pose proof (wf_p h S) as Wp. pose proof (wf_s h S) as Ws.
+  unfold new_url. destruct (u_sp u) as [l|] eqn:Eu; cbn [fst snd].
+  - eexists. split; [|split; [|split]].
+    + ext_goal.
+    + absred. rewrite <- Eu. rewrite val_obj. reflexivity.
+    + reflexivity.
+    + reflexivity.
+  - eexists. split; [|split; [|split]].
+    + ext_goal.
+    + absred. rewrite <- Eu. rewrite val_obj. reflexivity.
+    + reflexivity.
+    + reflexivity.
+Qed.
+
+Lemma abs_inv h a u : abs h a = Some u ->
+  exists o p, rd (hu h) a = Some o /\ rd (hp h) (o_path o) = Some p /\
+    match o_sp o with
+    | None => u = val_of o p None
+    | Some sl => exists s, rd (hs h) sl = Some s /\ u = val_of o p (Some (s_params s))
+    end.
+Proof.
+  unfold abs. destruct (rd (hu h) a) as [o|]; [|discriminate].
+  destruct (rd (hp h) (o_path o)) as [p|] eqn:P; [|discriminate].
+  intros H. exists o, p. split; [reflexivity|split; [exact P|]].
+  destruct (o_sp o) as [sl|]; [|congruence].
+  destruct (rd (hs h) sl) as [s|]; [|discriminate]. exists s. split; congruence.
+Qed.
+
+Lemma h_clone_spec h a u : Sep h -> abs h a = Some u ->
+  exists h' o, h_clone h a = Some (h', next (hu h)) /\ extends h h' (next (hu h)) o /\
+               abs h' (next (hu h)) = Some (Clone u) /\ next (hu h') = Datatypes.S (next (hu h)).
+Proof.
+  intros S A. pose proof (wf_u h S) as Wu. pose proof (wf_p h S) as Wp. pose proof (wf_s h S) as Ws.
+  destruct (abs_inv h a u A) as (o & p & Ho & Hp & Hsp). unfold h_clone. rewrite Ho, Hp.
+  destruct (o_sp o) as [sl|] eqn:Eo.
+  - destruct Hsp as (s & Hs & ->). rewrite Hs. eexists. eexists. split; [reflexivity|split; [|split]].
+    + ext_goal.
+    + absred. reflexivity.
+    + reflexivity.
+  - subst u. eexists. eexists. split; [reflexivity|split; [|split]].
+    + ext_goal.
+    + absred. reflexivity.
+    + reflexivity.
+Qed.
+
+Lemma h_clone_none h a : Sep h -> abs h a = None -> h_clone h a = None.
+Proof.
+  intros S A. unfold h_clone. destruct (rd (hu h) a) as [o|] eqn:Ho; [|reflexivity].
+  destruct (abs_live h a o S Ho) as (u & Hu). congruence.
+Qed.
+
+Ltac absred2 :=
+  unfold abs;
+  repeat progress (cbn [hu hp hs o_path o_sp obj_of with_ptrs with_query with_verrs s_owner s_params]; stores;
+                   rewrite ?Nat.eqb_refl; eqs).
+Section R.
+  Variable idna_raw : str -> str * bool.
+  Variable c : cfg.
+Lemma h_resolve_spec share h b ref vb u : Sep h -> abs h b = Some vb -> UrlParse idna_raw c vb ref = PUrl u ->
+  exists h' o, h_resolve idna_raw c share h b ref = LOk h' (Datatypes.S (next (hu h))) /\
+               extends h h' (Datatypes.S (next (hu h))) o /\
+               abs h' (Datatypes.S (next (hu h))) = Some u /\
+               next (hu h') = Datatypes.S (Datatypes.S (next (hu h))).
+Proof.
+  intros S A P. pose proof (wf_u h S) as Wu. pose proof (wf_p h S) as Wp. pose proof (wf_s h S) as Ws.
+  destruct (abs_inv h b vb A) as (o & p & Ho & Hp & Hsp). unfold h_resolve, h_clone. rewrite A, Ho, Hp.
+  destruct (o_sp o) as [sl|] eqn:Eo.
+  - destruct Hsp as (s & Hs & ->). rewrite Hs. rewrite P. unfold new_url.
+    destruct (u_sp u) as [l|] eqn:Eu; cbn [hu hp hs]; stores; rewrite ?Nat.eqb_refl; cbn [Nat.eqb];
+      rewrite ?Nat.eqb_refl; destruct share; cbn [o_sp o_path with_ptrs obj_of].
+    all: (eexists; eexists; split; [reflexivity|split; [|split]];
+          [ext_goal | absred2; rewrite <- Eu; rewrite val_obj; reflexivity | reflexivity]).
+  - subst vb. rewrite P. unfold new_url.
+    destruct (u_sp u) as [l|] eqn:Eu; cbn [hu hp hs]; stores; rewrite ?Nat.eqb_refl; cbn [Nat.eqb];
+      rewrite ?Nat.eqb_refl; destruct share; cbn [o_sp o_path with_ptrs obj_of].
+    all: (eexists; eexists; split; [reflexivity|split; [|split]];
+          [ext_goal | absred2; rewrite <- Eu; rewrite val_obj; reflexivity | reflexivity]).
+Qed.
+End R.
+
+Lemma inplace_refl h a o : Sep h -> rd (hu h) a = Some o -> inplace h h a o o.
+Proof.
+  intros S Ha. unfold inplace. repeat split; try reflexivity; try assumption.
+  - exact (sep_path h S a o Ha).
+  - exact (wf_s h S).
+  - destruct (sep_sp h S a o l Ha H) as (s & _). left. exact H.
+  - exact (sep_sp h S a o l Ha H).
+  - intros. contradiction.
+Qed.
+
+Section SP.
+  Variable c : cfg.
+
+  Lemma h_searchparams_spec h a o u : Sep h -> rd (hu h) a = Some o -> abs h a = Some u ->
+    exists h' sl o', h_searchparams c h a = Some (h', sl) /\ inplace h h' a o o' /\
+      abs h' a = Some (fst (ensure_sp c u)) /\ o_sp o' = Some sl /\
+      (forall sl0, o_sp o = Some sl0 -> sl0 = sl /\ h' = h) /\
+      exists s, rd (hs h') sl = Some s /\ s_owner s = Some a /\ s_params s = snd (ensure_sp c u).
+  Proof.
+    intros S Ha A. pose proof (wf_s h S) as Ws. pose proof (sep_path h S a o Ha) as Pl.
+    destruct (abs_inv h a u A) as (o1 & p & Ho & Hp & Hsp). rewrite Ha in Ho. injection Ho as <-.
+    unfold h_searchparams, ensure_sp. rewrite Ha. destruct (o_sp o) as [sl|] eqn:Eo.
+    - destruct Hsp as (s & Hs & ->). cbn [u_sp val_of fst snd]. exists h, sl, o.
+      split; [reflexivity|]. split; [apply inplace_refl; assumption|]. split; [exact A|]. split; [exact Eo|].
+      split; [intros sl0 E; injection E as ->; split; reflexivity|].
+      exists s. destruct (sep_sp h S a o sl Ha Eo) as (s' & Hs' & Ow). rewrite Hs in Hs'. injection Hs' as <-.
+      repeat split; assumption.
+    - subst u. cbn [u_sp val_of fst snd u_query]. eexists. eexists. eexists.
+      split; [reflexivity|]. split; [|split; [|split; [|split]]].
+      + unfold inplace. cbn [hu hp hs o_path o_sp with_ptrs]. stores. rewrite Nat.eqb_refl.
+        repeat split; try reflexivity; try assumption; fin.
+      + absred. rewrite Hp. reflexivity.
+      + reflexivity.
+      + intros sl0 E. discriminate.
+      + cbn [hs]. stores. rewrite Nat.eqb_refl. eexists. repeat split.
+  Qed.
+End SP.
+
+Section SP2.
+  Variable c : cfg.
+
+  (* a mutation through a SearchParams handle owned by a *)
+  Lemma h_sp_mutate_spec f h sl s a : Sep h -> rd (hs h) sl = Some s -> s_owner s = Some a ->
+    exists o u h' o', rd (hu h) a = Some o /\ abs h a = Some u /\ u_sp u = Some (s_params s) /\
+      h_sp_mutate c f h sl = Some h' /\ inplace h h' a o o' /\
+      abs h' a = Some (sp_update c u (f (s_params s))) /\ o_sp o' = Some sl /\ o_sp o = Some sl.
+  Proof.
+    intros S Hs Ow. pose proof (wf_s h S) as Ws.
+    destruct (sep_owner h S sl s a Hs Ow) as (o & Ha & Eo).
+    pose proof (sep_path h S a o Ha) as Pl. pose proof (live_s h sl s S Hs) as Ls.
+    destruct (rd (hp h) (o_path o)) as [p|] eqn:Hp; [|elim Pl; reflexivity].
+    assert (A : abs h a = Some (val_of o p (Some (s_params s)))).
+    { unfold abs. rewrite Ha, Hp, Eo, Hs. reflexivity. }
+    exists o, (val_of o p (Some (s_params s))).
+    unfold h_sp_mutate, sp_update. rewrite Hs, Ow, Ha. cbn [u_query set_sp val_of].
+    destruct ((is_nil (sp_string c (f (s_params s))) && is_some (o_query o)) || negb (is_nil (sp_string c (f (s_params s))))).
+    - eexists. eexists. split; [reflexivity|]. split; [exact A|]. split; [reflexivity|]. split; [reflexivity|].
+      split; [|split; [|split]].
+      + unfold inplace. cbn [hu hp hs o_path o_sp with_query]. stores. rewrite Nat.eqb_refl.
+        repeat split; try reflexivity; try assumption; fin.
+      + absred. rewrite Hp, Eo. stores. rewrite Nat.eqb_refl. reflexivity.
+      + exact Eo.
+      + exact Eo.
+    - exists {| hu := hu h; hp := hp h; hs := upd (hs h) sl (Some {| s_owner := Some a; s_params := f (s_params s) |}) |}, o.
+      split; [reflexivity|]. split; [exact A|]. split; [reflexivity|]. split; [reflexivity|].
+      split; [|split; [|split]].
+      + unfold inplace. cbn [hu hp hs]. stores.
+        repeat split; try reflexivity; try assumption; fin.
+      + absred. rewrite Ha, Hp, Eo. stores. rewrite Nat.eqb_refl. reflexivity.
+      + exact Eo.
+      + exact Eo.
+  Qed.
+
+  (* ... and through an ownerless one (update() returns early): no Url changes *)
+  Lemma h_sp_mutate_orphan f h sl s : Sep h -> rd (hs h) sl = Some s -> s_owner s = None ->
+    exists h', h_sp_mutate c f h sl = Some h' /\ Sep h' /\ hu h' = hu h /\ forall b, abs h' b = abs h b.
+  Proof.
+    intros S Hs Ow. unfold h_sp_mutate. rewrite Hs, Ow. eexists. split; [reflexivity|].
+    assert (NoPtr : forall b ob, rd (hu h) b = Some ob -> o_sp ob <> Some sl).
+    { intros b ob Hb E. destruct (sep_sp h S b ob sl Hb E) as (s' & Hs' & Ow'). congruence. }
+    split; [|split; [reflexivity|]].
+    - pose proof (live_s h sl s S Hs) as Ls. pose proof (wf_s h S) as Ws.
+      destruct S. constructor; cbn [hu hp hs]; try assumption.
+      + fin.
+      + intros b ob sl' Hb E. stores. destruct (Nat.eqb_spec sl' sl) as [->|N]; [elim (NoPtr b ob Hb E)|eauto].
+      + intros sl' s' b. stores. destruct (Nat.eqb_spec sl' sl) as [->|N]; [|eauto].
+        intros E. injection E as <-. cbn [s_owner]. discriminate.
+    - intros b. unfold abs. cbn [hu hp hs]. destruct (rd (hu h) b) as [ob|] eqn:Hb; [|reflexivity].
+      destruct (rd (hp h) (o_path ob)); [|reflexivity]. destruct (o_sp ob) as [sl'|] eqn:E; [|reflexivity].
+      stores. destruct (Nat.eqb_spec sl' sl) as [->|N]; [elim (NoPtr b ob Hb E)|reflexivity].
+  Qed.
+End SP2.
